@@ -25,6 +25,11 @@ import (
 type Op struct {
 	N string `json:"n"`
 	A []int  `json:"a"`
+	// pure-helper calls only (Appendix A.2): named callback, list arguments
+	// (one entry per slice/string/map argument), nested argument.
+	F string  `json:"f,omitempty"`
+	L [][]int `json:"l,omitempty"`
+	X any     `json:"x,omitempty"`
 }
 
 // Res is the uniformly typed result of an operation (DESIGN 3.3): an ok
@@ -34,6 +39,16 @@ type Res struct {
 	V  int   `json:"v"`
 	S  []int `json:"s"`
 	P  bool  `json:"p"`
+	H  *HRes `json:"h,omitempty"` // pure-helper calls only
+}
+
+// HRes carries the structured part of a helper's result: list of lists
+// (chunks, matrices, maps as sorted [k,v] pairs, groups), the callback
+// invocation log, and whether an error was returned.
+type HRes struct {
+	LL  [][]int `json:"ll"`
+	Log []int   `json:"log"`
+	E   bool    `json:"e"`
 }
 
 // Sys is one instance of the system under test.
@@ -97,6 +112,15 @@ func Exec(s Sys, op Op) (r Res) {
 	}()
 	r = s.Do(op)
 	r.S = nz(r.S)
+	if r.H != nil {
+		if r.H.LL == nil {
+			r.H.LL = [][]int{}
+		}
+		for i := range r.H.LL {
+			r.H.LL[i] = nz(r.H.LL[i])
+		}
+		r.H.Log = nz(r.H.Log)
+	}
 	return r
 }
 
@@ -335,4 +359,75 @@ func (ls *LinearSet) Close() (int, error) {
 		return 0, err
 	}
 	return len(ls.lines) + 1, ls.f.Close()
+}
+
+// StarSet records independent calls (pure helpers, Appendix A.2) as the
+// children of one root, dealt round-robin to `shards` files.
+type StarSet struct {
+	files []string
+	fs    []*os.File
+	ws    []*bufio.Writer
+	kids  [][]int
+	lines [][][]byte
+	n     int
+}
+
+// NewStarSet starts prefix.<i>.ndjson for i < shards.
+func NewStarSet(prefix string, shards int) (*StarSet, error) {
+	if shards < 1 {
+		shards = 1
+	}
+	ss := &StarSet{kids: make([][]int, shards), lines: make([][][]byte, shards)}
+	for i := 0; i < shards; i++ {
+		ss.files = append(ss.files, fmt.Sprintf("%s.%d.ndjson", prefix, i))
+	}
+	return ss, nil
+}
+
+// Call executes op on s (a stateless dispatcher) and records it.
+func (ss *StarSet) Call(s Sys, op Op) Res {
+	r := Exec(s, op)
+	if r.P {
+		r.H = nil
+	}
+	if op.A == nil {
+		op.A = []int{}
+	}
+	sh := ss.n % len(ss.files)
+	ss.n++
+	id := len(ss.lines[sh]) + 2
+	b, _ := json.Marshal(Node{Op: op, Res: r, Proj: 0, Kids: []int{}})
+	ss.lines[sh] = append(ss.lines[sh], b)
+	ss.kids[sh] = append(ss.kids[sh], id)
+	return r
+}
+
+// N is the number of calls recorded so far.
+func (ss *StarSet) N() int { return ss.n }
+
+// Close writes the files.
+func (ss *StarSet) Close() ([]string, error) {
+	for i, f := range ss.files {
+		fh, err := os.Create(f)
+		if err != nil {
+			return nil, err
+		}
+		w := bufio.NewWriterSize(fh, 1<<20)
+		k := ss.kids[i]
+		if k == nil {
+			k = []int{}
+		}
+		root, _ := json.Marshal(Node{Op: Op{N: "root", A: []int{}}, Res: Res{S: []int{}}, Proj: 0, Kids: k})
+		w.Write(root)
+		w.WriteByte('\n')
+		for _, l := range ss.lines[i] {
+			w.Write(l)
+			w.WriteByte('\n')
+		}
+		if err := w.Flush(); err != nil {
+			return nil, err
+		}
+		fh.Close()
+	}
+	return ss.files, nil
 }
